@@ -197,7 +197,7 @@ pub fn run(tier: Tier, part_only: bool) -> i32 {
     } else {
         rep.set("cap_note", json!("the model state graph hit its state cap before the depth bound: every state and transition found was covered on all three builds, but not every program up to that depth"));
     }
-    rep.set("rule", json!("states/transitions are those of the reference model's graph under the alphabet {new channel, new channel through a one-shot server (new, connect, send, accept), a one-shot server whose client connects and leaves without sending (accept must then report that no sender is left), clone, drop handle, send data, send data+region, embed sender, embed receiver, recv when the model defines it, try_recv, try_recv_timeout(0), add receiver to the set, drain the set while events are pending, drop receiver}; every transition is one program executed from scratch on each of the three builds with all results compared to the model (values, order, empty, disconnected, send failures; select results per member); long_queue_programs: besides the graph, every program of the family (q in {31,32,33,63,64} [thorough: 3..=64] messages queued on one channel) x (sender kept / dropped first) x (consumed by recv, try_recv, try_recv_timeout(0) one step past the end, or by the set added before / after the sends, alone / next to a second member, then one more message) on all three builds; programs are distinct by construction (different operation sequences) and every one counts as non-trivial (at least one operation executed on the real API with its result compared)"));
+    rep.set("rule", json!("states/transitions are those of the reference model's graph under the alphabet {new channel, new channel through a one-shot server (new, connect, send, accept), a one-shot server whose client connects and leaves without sending (accept must then report that no sender is left), clone, drop handle, send data, send data+region, embed sender, embed receiver, recv when the model defines it, try_recv, try_recv_timeout(0), add receiver to the set, drain the set while events are pending, drop the whole set with its members, drop receiver}; every transition is one program executed from scratch on each of the three builds with all results compared to the model (values, order, empty, disconnected, send failures; select results per member); long_queue_programs: besides the graph, every program of the family (q in {31,32,33,63,64} [thorough: 3..=64] messages queued on one channel) x (sender kept / dropped first) x (consumed by recv, try_recv, try_recv_timeout(0) one step past the end, or by the set added before / after the sends, alone / next to a second member, then one more message) on all three builds; programs are distinct by construction (different operation sequences) and every one counts as non-trivial (at least one operation executed on the real API with its result compared)"));
     rep.assume("operations the statement does not list (connecting to a non-existent name, selecting on an empty set, using a moved-out receiver, a blocking call the model says would block) are not in the alphabet");
     rep.assume("agreement of the three builds is established through agreement of each with the same deterministic model on the same programs");
     rep.finish()
